@@ -357,5 +357,17 @@ def run_c12(res, rng):
             return 'raw headers of a packet (message type %d) written into a used destination: byte %d is 0x%02x, the layout prescribes 0x%02x' % (mt, k, g[k] if k >= 0 else 0, want[k] if k >= 0 else 0)
         return None
     correspondence(res, rcases, lambda c, lines: [l for l in lines if l.startswith('R ')], rjudge, 'wire layout of the serialised packet headers')
-    res.cov['rule'] = ('as C11, judged against the layout table (offset, width, bit range, big-endian) for every field of every class; plus default-constructed objects of every header class: sizeof, reserved bytes zero, documented defaults; plus the 24 raw header bytes Packet serialises into a pre-filled destination, for every message type. '
+    # the variable-length parts the builders lay out (length words, data, NUL / zero padding to even length): the raw bytes must be the
+    # layout's, whatever the object held before - padding bytes included
+    import props_misc
+    bcases = []
+    for j in range(400 if res.tier == 'quick' else 12000):
+        r = rng.fork('bld%d' % j)
+        kind = r.choice([49, 50, 50, 49, 8, 1, 3])
+        bcases.append(props_misc.gen_c13(r, 'bld%d' % j, kind, thorough=res.tier == 'thorough'))
+    def bjudge(c, lines):
+        j = props_misc.judge_c13(c, lines)
+        return ('wire layout of a built payload: ' + j) if j else None
+    correspondence(res, bcases, lambda c, lines: [l for l in lines if l.startswith(('R ', 'W'))] + anomalies(lines), bjudge, 'wire layout of the payload builders')
+    res.cov['rule'] = ('as C11, judged against the layout table (offset, width, bit range, big-endian) for every field of every class; plus default-constructed objects of every header class: sizeof, reserved bytes zero, documented defaults; plus the 24 raw header bytes Packet serialises into a pre-filled destination, for every message type; plus payloads built by setData over earlier related contents (capture-module strings, stream-id lists, vendor data, CAN / LIN / Ethernet data) compared byte for byte with the layout incl. the padding bytes. '
                        'non-trivial = distinct (method, arguments, non-zero background)')
